@@ -308,7 +308,9 @@ async def sc_dht(cap, cls, curve):
     try:
         vk = rust().PrivateKey(b"LibNaCLSK:" + bytes(_random.randrange(256) for _ in range(64)))
         from ipv8.messaging.interfaces.udp.endpoint import UDPv4Address as _A4
-        vnode = Node(bytes(vk.pub().key_to_bin()), _A4("10.66.66.66", 6666))
+        # … named at the address of an honest node that DOES answer (with its own key): a find-response signed by `a`
+        # must not be credited to the third party's key
+        vnode = Node(bytes(vk.pub().key_to_bin()), _A4(*a.endpoint.wan_address))
         b.overlay.get_routing_table(vnode).add(vnode)
         b._c01_auth.add(bytes(vk.pub().key_to_bin()))      # inserted by the scenario into b, not learned from a datagram
         await step(c.overlay.find_nodes(vnode.id), 0.5)
